@@ -57,6 +57,10 @@ OBLIGATIONS = [
     "C01_never_stale_full_reverts_nomix", "C01_scratch_is_by_name", "C01_read_by_name_built",
     "C01_read_by_name_full_reverts_built", "C01_never_stale_opkinds_built", "C01_compose_examples",
     "C01_reads_are_C07_eval", "C01_reads_row_local", "C01_reads_eval_example",
+    # composition with C15 extension 4 (Compose/FromDictState.v): the graph from the definitions WITH THEIR FUNCTION SIGNATURES; the only
+    # graph-side hypothesis is `from_dict ds = FOk r`
+    "C01_graph_from_definitions_wf", "C01_accepted_definitions_have_wf_graph", "C01_never_stale_from_definitions",
+    "C01_never_stale_full_reverts_from_definitions", "C01_read_by_name_from_definitions", "C01_from_definitions_examples",
     # histories with scoped fork-mode switches, `with state.auto_fork(m): ...` (State/StateScoped.v)
     "C01_never_stale_scoped", "C01_scoped_reads_are_scratch", "C01_scoped_is_history", "C01_scoped_restores_mode",
     "C01_scoped_later_history", "C01_scoped_examples",
